@@ -28,6 +28,8 @@
 //!   reoffer <rounds>                  what sync does once the overload is over: per round, every changeset
 //!                                     offered so far that is not held is offered again (groups of at most
 //!                                     queue_len per hold/release); ORACLE: nothing may be left
+//!   (items: o:<site>:<ver>:<all|lo-hi|pKofN> chunk of an origin's logged version; x:<site>:<ver>:<lo-hi>:<last>
+//!    Full changeset without changes, lo > hi allowed = inverted range; e:<site>:<vlo-vhi> Empty)
 //!   retire <item>                     `reoffer` stops offering this changeset (the peers no longer have it in this form)
 //!   dump                              store + bookkeeping of the NUT
 use std::collections::BTreeMap;
@@ -397,8 +399,13 @@ impl Nut {
         };
         self.send(c, ChangeSource::Sync)?;
         let want = self.sent;
-        if !wait_until(|| ld(&stats().recv) >= want, LONG) {
+        let h = self.loop_handle.as_ref();
+        let died = || h.map(|h| h.is_finished()).unwrap_or(true);
+        if !wait_until(|| ld(&stats().recv) >= want || died(), LONG) {
             return Err("offer-not-consumed".into());
+        }
+        if ld(&stats().recv) < want {
+            return Err("LOOP-DIED".into());
         }
         Ok(())
     }
@@ -411,6 +418,9 @@ impl Nut {
         let s = stats();
         let (d0, s0) = (ld(&s.dropped), ld(&s.spawned));
         if let Err(e) = self.send(c, src).and_then(|_| self.sentinel()) {
+            if e == "LOOP-DIED" || e == "channel-closed" {
+                return "err loop-died".into();
+            }
             return format!("inconclusive {e}");
         }
         let mut rb = 0;
@@ -734,9 +744,6 @@ impl World {
                 let (Some(site), Ok(ver), Some((lo, hi)), Ok(last)) = (site_of(site), ver.parse::<u64>(), parse_range(seqs), last.parse::<u64>()) else {
                     return Err("bad-op".into());
                 };
-                if lo > hi && std::env::var("C10_ALLOW_INVERTED").is_err() {
-                    return Err("bad-op".into());
-                }
                 Ok((
                     ChangeV1 {
                         actor_id: actor_of(site),
@@ -772,8 +779,12 @@ impl World {
         };
         let Some(nut) = self.nut.as_mut() else { return "err no-node".into() };
         let out = nut.offer(c, src);
+        if out == "err loop-died" {
+            self.failures.push(format!("ingest-loop-died: handle_changes terminated while processing {item}; the node ingests nothing any more"));
+        }
         if out.starts_with("ok") {
-            if o.site != NUT && !self.offered.iter().any(|x| x.text == o.text) {
+            let inverted = o.seqs.map(|(a, b)| a > b).unwrap_or(false);
+            if o.site != NUT && !inverted && !self.offered.iter().any(|x| x.text == o.text) {
                 self.offered.push(o);
             }
             if out.contains("drop=1") {
@@ -1094,7 +1105,7 @@ impl Prop for C10 {
                 *n += 1;
             }
         }
-        let q = *rng.pick(&[1u64, 1, 2, 2, 3, 3, 4, 6, 12]);
+        let q = *rng.pick(&[1u64, 1, 2, 2, 3, 3, 4, 6]);
         let chunk = *rng.pick(&[1u64, 2, 3, 5, 50, 50, 50]);
         ops.push(format!("cfg {q} {chunk}"));
         let mut items = gen_items(rng, &vers);
@@ -1102,8 +1113,13 @@ impl Prop for C10 {
         let phases = rng.range(1, 3);
         for _ in 0..phases {
             rng.shuffle(&mut items);
+            // the database is locked by somebody else when the batches run: every batch of this phase fails
+            let failing = rng.chance(1, 4);
+            if failing {
+                ops.push("lock".into());
+            }
             ops.push("hold".into());
-            let n = rng.range(1, items.len() as u64) as usize;
+            let n = rng.range((items.len() as u64 / 2).max(1), items.len() as u64) as usize;
             for it in items.iter().take(n) {
                 ops.push(format!("offer {} {}", it.text, if rng.chance(1, 2) { "b" } else { "s" }));
                 if rng.chance(1, 5) {
@@ -1114,8 +1130,15 @@ impl Prop for C10 {
                 if rng.chance(1, 20) {
                     ops.push("tickwait".into());
                 }
+                if rng.chance(1, 25) {
+                    // malformed: inverted seq range (ignored by the loop)
+                    ops.push(format!("offer x:{}:{}:{}-{}:9 s", it.site, it.vs.0, rng.range(3, 6), rng.range(0, 2)));
+                }
             }
             ops.push("release".into());
+            if failing {
+                ops.push("unlock".into());
+            }
             if rng.chance(1, 3) {
                 let it = rng.pick(&items);
                 ops.push(format!("held {} {}-{} -", it.site, it.vs.0, it.vs.1));
